@@ -92,7 +92,7 @@ func newSys(c cfg) *sys {
 		conf["rtsp.out_wait_key_frame_flag"] = false
 	}
 	s := &sys{c: c, x: sw.New(conf), cs: map[int]*cstate{}}
-	s.x.W.Net.QuiesceTimeout = 5 * time.Second
+	s.x.W.Net.QuiesceTimeout = 20 * time.Second
 	if ok, err := s.x.PubArrive(); err != nil || !ok {
 		s.infra = fmt.Errorf("publisher: %v", err)
 		return s
@@ -314,7 +314,10 @@ func (s *sys) Apply(ev string) error {
 		if ev == "T" && st.stalled && fullBefore[c.ID] {
 			s.add("stalled-consumer-not-disconnected/"+c.Kind, "consumer %d (%s) has not read and its write queue (%d) has been full for a whole liveness interval, and the check left it attached", c.ID, c.Kind, queueSize)
 		}
-		if st.stalled && st.stallTicks >= 4 {
+		// (an RTSP subscriber's liveness is judged by lal from the packets it accepted for it, not from the
+		// bytes that reached the socket: while its queue still has room it counts as alive, so only the
+		// full-queue rule above applies to it)
+		if st.stalled && st.stallTicks >= 4 && c.Kind != "rtsp" {
 			s.add("stalled-consumer-not-disconnected/"+c.Kind, "consumer %d (%s) has not read for %d ticks (liveness check every tick) and is still attached", c.ID, c.Kind, st.stallTicks)
 		}
 	}
@@ -438,7 +441,7 @@ func main() {
 		states += st.States
 		trans += st.Transitions
 		execs += st.Executions
-		per[c.Name] = map[string]interface{}{"states": st.States, "transitions": st.Transitions, "depth_completed": st.MaxDepthCompleted, "frontier": st.Frontier}
+		per[c.Name] = map[string]interface{}{"states": st.States, "transitions": st.Transitions, "depth_completed": st.MaxDepthCompleted, "frontier": st.Frontier, "executions_repeated_after_infra_error": st.Retried}
 		if st.Capped {
 			r.NotExhaustive("internal time budget hit before the depth bound")
 		}
